@@ -10,7 +10,7 @@ use crate::world::{CancelKey, CloseKind, Cond, Opts, Outcome, Scenario, Step};
 use std::collections::{BTreeMap, BTreeSet};
 
 pub const PROGRAMS: &[&str] = &[
-    "txn", "autos", "ext", "failed-txn", "copyin", "copyout", "bad-password", "unknown-pool", "drop-idle", "drop-in-txn", "terminate-in-txn", "stay", "fin-in-txn", "multi-stmt", "txn-then-drop-in-txn", "txn-then-terminate-in-txn", "ext-copyin",
+    "txn", "autos", "ext", "failed-txn", "copyin", "copyout", "bad-password", "unknown-pool", "drop-idle", "drop-in-txn", "terminate-in-txn", "stay", "fin-in-txn", "multi-stmt", "txn-then-drop-in-txn", "txn-then-terminate-in-txn", "ext-copyin", "admin-terminate", "admin-drop", "admin-parse",
 ];
 
 pub fn program(c: usize, prog: &str) -> Script {
@@ -60,6 +60,14 @@ pub fn program(c: usize, prog: &str) -> Script {
                 .terminate()
         }
         "copyout" => s.connect("alice", "db", Some("alicepw")).q(&format!("COPY t TO STDOUT /*{} rows=2*/", t(0, 0))).terminate(),
+        // admin clients: leaving by Terminate, vanishing, thrown out for speaking the extended protocol
+        "admin-terminate" => s.connect("admin_user", "pgcat", Some("admin_pass")).q("SHOW VERSION").terminate(),
+        "admin-drop" => s.connect("admin_user", "pgcat", Some("admin_pass")).q("SHOW VERSION").close(CloseKind::HardDrop),
+        "admin-parse" => {
+            let mut b = wire::parse("", "SHOW VERSION", &[]);
+            b.extend(wire::sync());
+            s.connect("admin_user", "pgcat", Some("admin_pass")).q("SHOW VERSION").send(b, "P S").wait(Cond::Closed)
+        }
         "bad-password" => s.connect("alice", "db", Some("wrong")),
         "unknown-pool" => s.connect("alice", "nodb", Some("alicepw")),
         "drop-idle" => s.connect("alice", "db", Some("alicepw")).q(&format!("SELECT 1 /*{}*/", t(0, 0))).close(CloseKind::HardDrop),
@@ -263,7 +271,8 @@ pub fn oracle(sc: &Scenario, out: &Outcome) -> Vec<Violation> {
             }
             Rec::Probe { data } => {
                 let j: serde_json::Value = serde_json::from_str(data).unwrap();
-                let connected: Vec<usize> = logged_in.iter().filter(|c| !gone.contains(c)).cloned().collect();
+                let connected: Vec<usize> = logged_in.iter().filter(|c| !gone.contains(c) && !progs[**c].starts_with("admin-")).cloned().collect();
+                let admin_connected = logged_in.iter().filter(|c| !gone.contains(c) && progs[**c].starts_with("admin-")).count();
                 let listed: Vec<&serde_json::Value> = j["clients"].as_array().unwrap().iter().filter(|c| c["pool"] == "db").collect();
                 if listed.len() != connected.len() {
                     push(
@@ -276,7 +285,11 @@ pub fn oracle(sc: &Scenario, out: &Outcome) -> Vec<Violation> {
                 // nothing else may be listed: every entry is a client of the pool or the (single) admin session
                 let strangers: Vec<&serde_json::Value> = j["clients"].as_array().unwrap().iter().filter(|c| c["pool"] != "db" && c["pool"] != "pgcat").collect();
                 let admins = j["clients"].as_array().unwrap().iter().filter(|c| c["pool"] == "pgcat").count();
-                if !strangers.is_empty() || admins > 1 {
+                // (the probing admin session of the harness itself, plus the scripted admin clients still connected;
+                // a scripted one whose departure the pooler has not processed yet may still be listed)
+                let admin_ever = logged_in.iter().filter(|c| progs[**c].starts_with("admin-")).count();
+                let quiescent_admins = if outstanding.is_empty() { admin_connected } else { admin_ever };
+                if !strangers.is_empty() || admins > 1 + quiescent_admins.max(admin_connected) {
                     push(
                         &mut vs,
                         "C18.clients-listed",
@@ -408,7 +421,7 @@ pub fn build(tier: &str) -> SimCheck {
         oracle: Box::new(oracle),
         bound: if thorough { 3 } else { 2 },
         limits: Limits { max_wall_s: if thorough { 2400.0 } else { 55.0 }, ..Default::default() },
-        rule: "scenario = pool mode x pool_size {1,2} (1 primary + 1 replica) x 1-3 client programs out of 14 (transactions over both protocols, multi-statement, failed, COPY in/out, bad password, unknown pool, hard drop while idle / in transaction, FIN and Terminate in transaction, staying connected) with an optional cancel-request connection; also with a replica that cannot be logged in to (refuses / closes / FATAL at startup); all schedules with <= bound deviations; after EVERY event the pooler's registries (what SHOW POOLS/CLIENTS/SERVERS/STATS print) are compared with a ledger kept from the scripted clients' and the reference backend's logs; the SHOW commands themselves are run at the end".into(),
+        rule: "scenario = pool mode x pool_size {1,2} (1 primary + 1 replica) x 1-3 client programs out of 14 (transactions over both protocols, multi-statement, failed, COPY in/out, bad password, unknown pool, hard drop while idle / in transaction, FIN and Terminate in transaction, staying connected, admin clients leaving by Terminate / vanishing / thrown out for sending Parse) with an optional cancel-request connection; also with a replica that cannot be logged in to (refuses / closes / FATAL at startup); all schedules with <= bound deviations; after EVERY event the pooler's registries (what SHOW POOLS/CLIENTS/SERVERS/STATS print) are compared with a ledger kept from the scripted clients' and the reference backend's logs; the SHOW commands themselves are run at the end".into(),
         assumptions: vec!["the registries are read through the same public functions the SHOW commands use (get_client_stats, get_server_stats, PoolStats::construct_pool_lookup, AddressStats)".into()],
     }
 }
